@@ -14,7 +14,7 @@ import isogen
 import readcheck
 
 LEVEL = "proof"
-CONE = ["Props/C07.v", "Base/Cost.v", "Proofs/CostProps.v", "Proofs/CostOpen.v", "Proofs/CostSample.v", "Proofs/CostLoop.v", "Proofs/CostCont.v", "Proofs/CostLeaf.v", "Proofs/CostLeaf2.v", "Proofs/CostLeaf3.v", "Proofs/CostBoxes.v", "Proofs/CostMp4a.v", "Proofs/CostMeta.v", "Proofs/CostTree.v"]
+CONE = ["Props/C07.v", "Props/C07Lookup.v", "Proofs/LookupCost.v", "Proofs/LookupCostOpen.v", "Base/Cost.v", "Proofs/CostProps.v", "Proofs/CostOpen.v", "Proofs/CostSample.v", "Proofs/CostLoop.v", "Proofs/CostCont.v", "Proofs/CostLeaf.v", "Proofs/CostLeaf2.v", "Proofs/CostLeaf3.v", "Proofs/CostBoxes.v", "Proofs/CostMp4a.v", "Proofs/CostMeta.v", "Proofs/CostTree.v"]
 
 
 def budget_open(n):
@@ -48,6 +48,30 @@ def families(n):
         for kind in ("avc", "ttxt"):
             tr = {"id": 1, "kind": kind, "ts": 1000, "tables": tb, "duration": dur}
             out.append(("fixed_size_huge_chunk_%s_%d" % (kind, dur), isogen.render([isogen.ftyp(), isogen.Box("moov", [isogen.mvhd(1000, dur), isogen.trak_of(tr)]), isogen.Box("mdat", [isogen.Raw(b"x" * min(n, 4096))])]).data))
+    # k table boxes that DECLARE 12 bytes (too short for their own count field) with a count covering the rest of the file: a count guard derived from
+    # the declared size rejects them; one that lets them through re-reads the rest of the file k times (quadratic)
+    for typ, where in ((b"elst", "edts"), (b"stts", "stbl"), (b"stsc", "stbl"), (b"stco", "stbl"), (b"stss", "stbl"), (b"ctts", "stbl")):
+        kk = max(2, n // 24)
+        def shorts(counts):
+            bs = []
+            for c in counts:
+                t = B(typ.decode(), [isogen.F(4, 0), isogen.F(4, c)], size_override=12)
+                bs.append(B("edts", [t]) if where == "edts" else t)
+            return bs
+        def movie(counts):
+            tr = {"id": 1, "kind": "avc", "ts": 1000, "sizes": [1], "chunks": [1], "deltas": [1], "cts": None, "sync": None, "co64": False}
+            if where == "edts":
+                tr["trak_extra"] = shorts(counts)
+                return isogen.build_movie([tr])[0]
+            r0, _, nodes = isogen.build_movie([tr])
+            stbl = nodes[1].find("trak")[0].find("mdia")[0].find("minf")[0].find("stbl")[0]
+            stbl.items = list(stbl.items) + shorts(counts)
+            return isogen.render(nodes)
+        r0 = movie([0] * kk)
+        pos = [off for off, size, hdr, path in r0.boxes if path.endswith("/" + typ.decode()) and size == 16]
+        total = len(r0.data)
+        counts = [max(1, (total - (o + 16)) // 12 - 1) for o in pos][-kk:]
+        out.append(("short_%s_x%d" % (typ.decode(), kk), bytes(movie(counts).data)))
     # 64-bit headers with sizes near the file length
     out.append(("large_hdr", isogen.render([isogen.ftyp()] + [B("free", [isogen.Raw(b"\0" * 8)], large=True)] * (k // 3)).data))
     # k sample entries whose esds descriptors claim to extend over z bytes of zero padding behind the moov box
@@ -111,11 +135,13 @@ def corpus(rep):
     init = next(d for n, d in readcheck.canned() if n == "minimal_init.mp4")
     bombs = readcheck.frag_default_bombs(init)
     cases += [("family:" + lab, c) for lab, c in (bombs[::5] if quick else bombs)]
+    for name, r, _ in [f for i, f in enumerate(readcheck.valid_files(random.Random(rep.seed + 77), 4 if quick else 9)) if not quick or i in (0, 3)]:   # file 3 carries an edit list
+        cases += [("family:%s:%s" % (name, lab), c) for lab, c in readcheck.short_table_bombs(r)]
     return cases
 
 
 def check(rep):
-    proof_ok, details = common.proof_layer(rep, "C07", CONE, extra_targets=["theories/Extract/Extract.vo"])
+    proof_ok, details = common.proof_layer(rep, ["C07", "C07Lookup"], CONE, extra_targets=["theories/Extract/Extract.vo"])
     with common.Lock():
         hb_ok, hb_log = common.harness_build(["run"])
         ob_ok, ob_log = common.ocaml_build()
